@@ -250,25 +250,29 @@ theorem asciiLower_ascii (c : Char) : (asciiLower c).toNat < 128 → c.toNat < 1
   · simp at hc; omega
   · simpa [asciiLower, hc] using h
 
-/-- The names `quote_ident` (default flags) prints correctly.
-    * when it back-quotes: the name must not start with `$`, must not be
-      surrounded by double underscores, and must not hold NUL / a bidi control
-      (the tokenizer refuses these inside back-quotes); that it is non-empty,
-      does not start with `@` and has no `::` already follows from the fact that
-      `needs_quoting` said yes;
-    * when it leaves the name bare: the name is non-empty, does not start with
-      `@`, has no `::` (for these three `quote_ident` returns the text as is,
-      which is not a single identifier), its characters are in the tokenizer's
-      identifier classes (Python's `\\w` is a different table), and it is not a
-      double-underscore name unless that is a keyword. -/
-def identExpressible (P : PyUnicode) (U : UClass) (s : List Char) : Bool :=
+/-- Python's classes are inside the tokenizer's: every `str.isalpha()`
+    character is `is_alphabetic`, every `\\w` character is `_` or `is_alphanumeric`.
+    On ASCII both hold by construction; outside ASCII this is a statement about
+    two Unicode tables (CPython's and rustc's), checked by the harness sweep on
+    every code point. -/
+def Compat (P : PyUnicode) (U : UClass) : Prop :=
+  (∀ c, pyIsAlpha P c = true → isAlpha U c = true) ∧
+  (∀ c, pyIsWord P c = true → c = '_' ∨ isAlnum U c = true)
+
+/-- The names that SOME identifier form can carry, phrased along the branch
+    `quote_ident` takes:
+    * back-quoted: the name must not start with `$`, must not be surrounded by
+      double underscores, must not hold NUL / a bidi control (the tokenizer
+      refuses these inside back-quotes, and such a name is no bare identifier
+      either);
+    * bare: non-empty, not starting with `@`, no `::` (for these three
+      `quote_ident` returns the text as is — no identifier form exists for
+      them), and not a double-underscore name unless that is a keyword. -/
+def identExpressible (P : PyUnicode) (s : List Char) : Bool :=
   if needsQuoting P s false false then
     s.head? ≠ some '$' && !isDunder s && s.all (fun c => (checkProhibited c false).isNone)
   else
-    (match s with
-     | [] => false
-     | c :: t => c ≠ '@' && !hasNamespaceSep s && (c = '_' || isAlpha U c) &&
-                 t.all (fun x => x = '_' || isAlnum U x)) &&
+    !s.isEmpty && s.head? ≠ some '@' && !hasNamespaceSep s &&
     !((asKeyword s).isNone && isDunder s)
 
 /-- what may follow the printed identifier -/
@@ -285,8 +289,8 @@ theorem needsQuoting_true (P : PyUnicode) (s : List Char) (a b : Bool)
     simp only [Bool.or_eq_true, decide_eq_true_eq, not_or, Quote.hasNamespaceSep] at hc
     exact ⟨by simpa using hc.1.1, hc.1.2, by simpa using hc.2⟩
 
-theorem quoteIdent_lex (U : UClass) (P : PyUnicode) (s rest : List Char)
-    (he : identExpressible P U s = true)
+theorem quoteIdent_lex (U : UClass) (P : PyUnicode) (hc : Compat P U) (s rest : List Char)
+    (he : identExpressible P s = true)
     (hd : identDelim U (needsQuoting P s false false) rest) :
     ∃ t, lexOne U (quoteIdent P s false false false ++ rest) = .ok (t, rest) ∧
       t.val = .str s ∧ IdentLike t.kind := by
@@ -308,9 +312,32 @@ theorem quoteIdent_lex (U : UClass) (P : PyUnicode) (s rest : List Char)
     cases s with
     | nil => simp at he
     | cons c t =>
-      simp only [Bool.and_eq_true, Bool.not_eq_true', decide_eq_true_eq, List.all_eq_true,
-        Bool.or_eq_true, Bool.and_eq_false_imp, Option.isNone_iff_eq_none] at he
-      obtain ⟨⟨⟨⟨hat, hns⟩, hstart⟩, htail⟩, hdun⟩ := he
+      simp only [Bool.and_eq_true, Bool.not_eq_true', decide_eq_true_eq, List.isEmpty_cons,
+        Bool.and_eq_false_imp, Option.isNone_iff_eq_none, List.head?_cons] at he
+      obtain ⟨⟨⟨_, hat⟩, hns⟩, hdun⟩ := he
+      -- what `needs_quoting` = False says
+      have hcond : ((c :: t).isEmpty || decide ((c :: t).head? = some '@') ||
+          Quote.hasNamespaceSep (c :: t)) = false := by
+        have hat' : c ≠ '@' := by simpa using hat
+        simp [Quote.hasNamespaceSep, hns, hat']
+      have hnq := hn'
+      unfold needsQuoting at hnq
+      simp only [hcond, Bool.false_eq_true, if_false, Bool.and_false, Bool.or_false,
+        Bool.not_false, Bool.true_and, Bool.or_eq_false_iff, Bool.not_eq_false',
+        Bool.and_eq_true, Bool.or_eq_true, decide_eq_true_eq] at hnq
+      obtain ⟨⟨hmatch, hfirst⟩, hres⟩ := hnq
+      have hmatch : matchIdent P (c :: t) = true := by
+        rcases hmatch with h | h
+        · exact h
+        · exact absurd h.1 (by simp)
+      simp only [matchIdent, Bool.and_eq_true, List.all_eq_true] at hmatch
+      obtain ⟨hws, hwt⟩ := hmatch
+      have hstart : c = '_' ∨ isAlpha U c = true := by
+        rcases hfirst with (h | h) | h
+        · exact Or.inl h
+        · exact Or.inr (hc.1 c h)
+        · simp [pyIsWordStart, h] at hws
+      have htail : ∀ x ∈ t, x = '_' ∨ isAlnum U x = true := fun x hx => hc.2 x (hwt x hx)
       have hloop := identLoop_all U t rest htail hd
       simp only [quoteIdent, hn', Bool.or_false, Bool.false_eq_true, if_false, List.cons_append]
       rw [lexOne_identStart U c _ hstart]
@@ -337,19 +364,13 @@ theorem quoteIdent_lex (U : UClass) (P : PyUnicode) (s rest : List Char)
                 simpa [List.all_eq_true] using hasc
               simp only [pyLower, this, if_true]
               exact hk
-            -- what `needs_quoting` = False says about the lower-cased name
-            unfold needsQuoting at hn'
-            have hcond : ((c :: t).isEmpty || decide ((c :: t).head? = some '@') ||
-                Quote.hasNamespaceSep (c :: t)) = false := by
-              simp [hat, Quote.hasNamespaceSep, hns]
-            simp only [hcond, Bool.false_eq_true, if_false, hl] at hn'
-            simp only [Bool.or_eq_false_iff, Bool.not_eq_false', Bool.not_false, Bool.true_and,
-              Bool.and_eq_false_imp, Bool.and_eq_true, decide_eq_true_eq, ne_eq] at hn'
+            rw [hl] at hres
+            simp only [Bool.and_eq_false_imp, Bool.and_eq_true, decide_eq_true_eq, ne_eq] at hres
             by_cases e1 : k = dunderType
             · exact Or.inr (Or.inl e1)
             by_cases e2 : k = dunderStd
             · exact Or.inr (Or.inr e2)
-            exact Or.inl (hn'.2 ⟨e1, e2⟩)
+            exact Or.inl (hres ⟨e1, e2⟩)
           · simp at hk
 
 /-- `quote_ident(s, force=True)` -/
